@@ -310,6 +310,18 @@ pub fn check(case: &Case, idx: u64, acc: &mut Acc) {
                             if !close_scaled(gx, 1.5 * s1, 1.0, tol * dscale(1) * 1.5) || !close_scaled(hx, want_h, 1.0, tol * dscale(2) * 4.0) {
                                 acc.violate(&format!("abscissa-sensitivity/Dual2-spline/{}", endkey), idx, cj(), json!({"x": x.f(), "want_dx": 1.5 * s1, "want_d2x": want_h}), json!([gx, hx]));
                             }
+                            // the MIXED block: d2 s / d y_j d x = (slope of the spline solved on the j-th unit data) * dx/du
+                            let mut all = names.clone();
+                            all.push("x".to_string());
+                            let hh = d.gradient2(all);
+                            for j in 0..n {
+                                let unit: Vec<Rat> = (0..n).map(|i| inv[i][j]).collect();
+                                let want = 1.5 * exact_eval(&unit, 1, *x).f();
+                                if !close_scaled(hh[[j, n]], want, 1.0, tol * dscale(1) * 1.5) || !close_scaled(hh[[n, j]], want, 1.0, tol * dscale(1) * 1.5) {
+                                    acc.violate(&format!("abscissa-sensitivity/Dual2-spline/mixed-block/{}", endkey), idx, cj(), json!({"x": x.f(), "datum": j, "want": want}), json!([hh[[j, n]], hh[[n, j]]]));
+                                    break;
+                                }
+                            }
                         } else {
                             acc.violate("evaluate/Dual2-at-Dual2/error", idx, cj(), json!({"x": x.f()}), json!("Err"));
                         }
@@ -810,7 +822,7 @@ pub fn run(ctx: &Ctx, replay_file: Option<String>) -> ! {
          point (which covers interpolation, end conditions and polynomial reproduction everywhere in the domain); the interior sites listed reversed / rotated / with the outer two swapped give the same coefficients; Dual \
          and Dual2 data: sensitivity to datum j = the unit-data spline, zero Hessian; Dual/Dual2 abscissas on float, \
          Dual and Dual2 splines: first / second derivative of the spline as sensitivities (chain rule with a non-unit \
-         gradient and a non-zero Hessian on the abscissa); 3x3 type table of mapped_value; count mismatches and \
+         gradient and a non-zero Hessian on the abscissa), and on a Dual2 spline the mixed datum-abscissa block = slope of the unit-data spline; 3x3 type table of mapped_value; count mismatches and \
          evaluation before solving are errors; one spline object taken through every ordered pair of (sites, end conditions) configurations, with a refused solve in between on every other pair, equals a fresh object solved once, bit for bit. Long splines (orders 2..4 with 5, 13, 27..32, 60 interior integer knots, i.e. up to 64 basis functions; order 4 in the natural layout): the collocation matrix entry by entry against the single-function evaluators, reproduction of the polynomials of degree < k in value and every derivative, data reproduction and end conditions in all three number types with unit-vector sensitivities at the sites, data sensitivities against the float spline solved on unit data, Dual2 abscissa on the float spline (tolerance oracle, 1e-8). Non-trivial: asymmetric end conditions or the natural layout.",
         json!({"max_order": ctx.tier.pick(4, 6), "cases": cs.len()}),
     )
